@@ -612,6 +612,127 @@ func buildProbes() []aliasProbe {
 		}
 		return ""
 	})
+	// class functions: the sequence they return shares nothing with the operands.  Changes
+	// that work in place come first: a change of size makes a collection re-allocate, which
+	// would hide shared storage.
+	inPlace := func(l col.ListLike[int]) []func() string {
+		var fs []func() string
+		if l.GetSize() > 0 {
+			fs = append(fs,
+				func() string { l.SetValue(1, -31); return "SetValue(1)" },
+				func() string { l.SetValue(-1, -32); return "SetValue(-1)" },
+				func() string { l.ReverseValues(); return "ReverseValues" },
+				func() string { l.SortValues(); return "SortValues" })
+		}
+		return append(fs,
+			func() string { l.AppendValue(-33); return "AppendValue" },
+			func() string { l.RemoveValue(1); return "RemoveValue(1)" })
+	}
+	add("List.Concatenate/mutate-result-and-operands", func(n int) string {
+		L := col.List[int](Notation)
+		for _, m := range []int{0, 1, n} {
+			for _, swap := range []bool{false, true} {
+				mkA := func() col.ListLike[int] { return L.MakeFromArray(ints(n, 1)) }
+				mkB := func() col.ListLike[int] { return L.MakeFromArray(ints(m, 50)) }
+				if swap {
+					mkA, mkB = mkB, mkA
+				}
+				a, b := mkA(), mkB()
+				wa, wb := show(a), show(b)
+				r := L.Concatenate(a, b)
+				for _, f := range inPlace(r) {
+					what := f()
+					if show(a) != wa || show(b) != wb {
+						return fmt.Sprintf("%s on Concatenate(%s, %s) changed an operand: %s %s", what, wa, wb, show(a), show(b))
+					}
+				}
+				for _, which := range []int{0, 1} {
+					a, b := mkA(), mkB()
+					r := L.Concatenate(a, b)
+					want := show(r)
+					op := a
+					if which == 1 {
+						op = b
+					}
+					for _, f := range inPlace(op) {
+						what := f()
+						if show(r) != want {
+							return fmt.Sprintf("%s on operand %d of Concatenate(%s, %s) changed the result: %s", what, which+1, wa, wb, show(r))
+						}
+					}
+				}
+			}
+		}
+		return ""
+	})
+	add("Catalog.Merge+Extract/mutate-result-and-operands", func(n int) string {
+		C := col.Catalog[int, int](Notation)
+		for _, m := range []int{0, 1, n} {
+			mkA := func() col.CatalogLike[int, int] { return C.MakeFromArray(assocs(n)) }
+			mkB := func() col.CatalogLike[int, int] {
+				b := C.Make()
+				for i := 0; i < m; i++ {
+					b.SetValue(n+i, 70+i) // key n is shared with a when n > 0
+				}
+				return b
+			}
+			poke := func(c col.CatalogLike[int, int]) []func() string {
+				var fs []func() string
+				for _, k := range c.GetKeys().AsArray() {
+					k := k
+					fs = append(fs, func() string { c.SetValue(k, -41); return fmt.Sprintf("SetValue(%d) (existing key)", k) })
+				}
+				return append(fs,
+					func() string { c.ReverseValues(); return "ReverseValues" },
+					func() string { c.SetValue(-99, -42); return "SetValue(new key)" },
+					func() string { c.RemoveAll(); return "RemoveAll" })
+			}
+			a, b := mkA(), mkB()
+			wa, wb := showAssoc(a), showAssoc(b)
+			r := C.Merge(a, b)
+			for _, f := range poke(r) {
+				what := f()
+				if showAssoc(a) != wa || showAssoc(b) != wb {
+					return fmt.Sprintf("%s on Merge(%s, %s) changed an operand: %s %s", what, wa, wb, showAssoc(a), showAssoc(b))
+				}
+			}
+			for _, which := range []int{0, 1} {
+				a, b := mkA(), mkB()
+				r := C.Merge(a, b)
+				want := showAssoc(r)
+				op := a
+				if which == 1 {
+					op = b
+				}
+				for _, f := range poke(op) {
+					what := f()
+					if showAssoc(r) != want {
+						return fmt.Sprintf("%s on operand %d of Merge(%s, %s) changed the result: %s", what, which+1, wa, wb, showAssoc(r))
+					}
+				}
+			}
+			// Extract
+			a = mkA()
+			keys := col.List[int](Notation).MakeFromArray(ints(n, 1))
+			e := C.Extract(a, keys)
+			for _, f := range poke(e) {
+				what := f()
+				if showAssoc(a) != wa || show(keys) != fmt.Sprint(ints(n, 1)) {
+					return fmt.Sprintf("%s on Extract(%s, keys) changed an operand: %s %s", what, wa, showAssoc(a), show(keys))
+				}
+			}
+			a = mkA()
+			e = C.Extract(a, keys)
+			want := showAssoc(e)
+			for _, f := range poke(a) {
+				what := f()
+				if showAssoc(e) != want {
+					return fmt.Sprintf("%s on the catalog after Extract changed the result: %s", what, showAssoc(e))
+				}
+			}
+		}
+		return ""
+	})
 	return ps
 }
 
@@ -660,7 +781,7 @@ var c18known = map[string]string{
 	"GetKeys": "C18", "RemoveValues": "C18", "SetValues": "C18 (self operand) / C01", "InsertValues": "C18 (self operand) / C01",
 	"AppendValues": "C18 (self operand) / C01", "AddValues": "C18 (self operand) / C02",
 	"ContainsAny": "read-only operand (C01/C02 check operand purity)", "ContainsAll": "read-only operand (C01/C02)",
-	"Concatenate": "C16", "Merge": "C16", "Extract": "C16", "And": "C15", "Or": "C15", "Sans": "C15", "Xor": "C15",
+	"Concatenate": "C18 / C16", "Merge": "C18 / C16", "Extract": "C18 / C16", "And": "C15", "Or": "C15", "Sans": "C15", "Xor": "C15",
 	"Fork": "C06 (queues, not storage)", "Split": "C06", "Join": "C06",
 	"MakeWithCollator": "no storage", "GetIterator": "C17", "Make": "returns a fresh collection", "MakeWithCapacity": "returns a fresh collection",
 }
